@@ -16,6 +16,7 @@ Helper lemmas live in Lemmas/C01L*.lean.
 import NetaddrVerif.Lemmas.C01LText6
 import NetaddrVerif.Lemmas.C01LStrict
 import NetaddrVerif.Lemmas.C01LAton
+import NetaddrVerif.Lemmas.C01LStrict6
 import NetaddrVerif.Lemmas.C03LInt
 namespace NV.C01
 open NV NV.Text4 NV.AddrParse NV.C01L
@@ -268,12 +269,38 @@ theorem valid_iff (be : Backend) (s : List Char) (fl : Nat) (hs : s ≠ []) (hns
     Proved here: (a) soundness direction on everything the printers emit — each of the three
     dialect texts of every 128-bit value is accepted with that value by both back ends;
     (b) the fallback reader equals the platform model on ALL strings (`fallback_eq_platform_parse`).
-    Missing: the independent grammar predicate and the equivalence of the split-style model with
-    it (the split-style model is itself close to a grammar; the harness oracle compares both the
-    real code and the platform with an independently written RFC 4291 recogniser on every run). -/
+    (c) necessary conditions for acceptance: `strict6_necessary` (pieces are empty / 1-4 hex
+    digits / canonical dotted quad; character set), `strict6_rejects_foreign`.
+    Missing: the independent grammar predicate and the full equivalence of the split-style model
+    with it — i.e. the exact placement rules of the empty pieces and the group count (the
+    split-style model is itself close to a grammar; the harness oracle compares both the real code
+    and the platform with an independently written RFC 4291 recogniser on every run). -/
 theorem strict6_iff_partial (be : Backend) (d : Dialect) (v : Nat) (hv : v < 2 ^ 128) :
     inetPton6 be (intToStr6 be d v) = some v ∧ inetPton6 .fallback (intToStr6 be d v) = inetPton6 .platform (intToStr6 be d v) :=
   ⟨text6_parse be d v hv, fb_pton6_eq _⟩
+
+/-- **Strict IPv6, necessary conditions** (the "only standard strings" direction, in part): a
+    string accepted by `inet_pton(AF_INET6, ·)` of either back end splits at ':' into pieces each
+    of which is empty, a group of 1-4 hex digits, or a canonical dotted quad; in particular it
+    contains nothing but hex digits, ':' and '.', so whitespace, signs, underscores, `0x`, a
+    '/' or '%' suffix, and groups of five or more digits are all refused. -/
+theorem strict6_necessary (be : Backend) (s : List Char) (v : Nat) (h : inetPton6 be s = some v) :
+    (∀ t ∈ s.splitOn ':', GoodPiece t) ∧ (∀ c ∈ s, isHexC c = true ∨ c = ':' ∨ c = '.') := by
+  rw [inetPton6_eq] at h
+  exact ⟨pton6_pieces s v h, pton6_charset s v h⟩
+
+theorem strict6_rejects_foreign (be : Backend) (s : List Char) (c : Char) (hc : c ∈ s)
+    (h1 : isHexC c = false) (h2 : c ≠ ':') (h3 : c ≠ '.') : inetPton6 be s = none := by
+  cases h : inetPton6 be s with
+  | none => rfl
+  | some v =>
+    rcases (strict6_necessary be s v h).2 c hc with e | e | e
+    · rw [h1] at e; cases e
+    · exact absurd e h2
+    · exact absurd e h3
+
+example : inetPton6 .fallback " 1::".toList = none ∧ inetPton6 .fallback "1:2:3:4:5:6:7:00008".toList = none := by
+  decide
 
 theorem atonLoop_end_big (f : Nat) (lit : List Char) (val : Nat) (h : IsCLit lit val) (hv : val > 4294967295)
     (parts : List Nat) : Text4.atonLoop (f + 1) lit parts = none := by
